@@ -180,6 +180,73 @@ def forced_suite(ctx, vh, queue):
                        "case": r}, no_input=True)
 
 
+def swap_term(row):
+    steps = []
+    for op, ob in zip(row["ops"], row["obs"]):
+        k = op["k"]
+        o = {"N": "(ON %d %s)" % (op.get("c", 0), gbool(op.get("s", 0) == 1)), "R": "(OR %d)" % op.get("c", 0),
+             "U": "OU"}[k]
+        sts = [{"idle": "WIdle", "held": "WHeld", "blk": "WBlk", "ret": "WRet"}[c["s"]] for c in ob["c"]]
+        up = {"idle": 0, "blk": 1, "done": 2}[ob["w"]]
+        steps.append("WS %s (WO %s %d %s %s)" % (o, glist(sts), up, ids(ob.get("oq") or []), ids(ob.get("ns") or [])))
+    return "WC %d %s" % (row["nc"], glist(steps))
+
+
+def describe_swap(row):
+    out = []
+    for op, ob in zip(row["ops"], row["obs"]):
+        o = {"N": "Send%d%s" % (op.get("c", 0) + 1, "(held in transport.Send)" if op.get("s") else ""),
+             "R": "release%d" % (op.get("c", 0) + 1), "U": "upgradeTo"}[op["k"]]
+        out.append("%s->senders[%s] upgrade=%s oldQueue=%s newSent=%s"
+                   % (o, ",".join(c["s"] for c in ob["c"]), ob["w"], ob.get("oq") or [], ob.get("ns") or []))
+    return "; ".join(out)
+
+
+def swap_suite(ctx, vh):
+    """engine.io server socket: Send racing the transport swap.  Real serverSocket on the real polling
+    transport wrapped so that chosen Sends are held at the first instruction of transport.Send (after the
+    socket picked the transport, before the packet is queued); every interleaving with one upgradeTo."""
+    hdr = "From Coq Require Import List NArith ZArith Bool.\nImport ListNotations.\nFrom SioV Require Import Eio.PollQueueSwapCheck.\n"
+    theorems = ["C19_swap_no_stranded", "C19_swap_send_targets_current"]
+    rows = ctx.vh_jsonl(vh, "queues", ["-mode", "forced", "-queue", "swap", "-tier", ctx.tier, "-seed", ctx.seed])
+    if rows is None:
+        return
+    errs = [r for r in rows if r.get("err")]
+    if errs:
+        ctx.violation("swap rig could not run %d schedules: %s" % (len(errs), errs[0]["err"]),
+                      {"kind": "correspondence-broken", "suite": "forced/swap", "case": errs[0]}, no_input=True)
+        rows = [r for r in rows if not r.get("err")]
+    terms = [swap_term(r) for r in rows]
+    for r in rows:
+        racing = any(op["k"] == "U" and i > 0 and any(c["s"] == "held" for c in r["obs"][i - 1]["c"])
+                     for i, op in enumerate(r["ops"]))
+        ctx.count(1, nontrivial_key=("swap", json.dumps(r["ops"])) if racing else None, dist="forced:swap:" + r["cfg"])
+    if rows:
+        ctx.sample({"suite": "forced/swap", "case": rows[len(rows) // 2]})
+    bad_oracle, bad_agree = eval_both(ctx, "c19_swap", hdr, terms, shard=400)
+    ctx.obligation("correspondence:forced/swap", "correspondence", not bad_agree,
+                   "%d schedules, %d disagree with the model" % (len(rows), len(bad_agree)))
+    ctx.obligation("oracle:forced/swap", "oracle", not bad_oracle,
+                   "%d schedules, %d violate the property" % (len(rows), len(bad_oracle)))
+    for i in sorted(bad_oracle, key=lambda i: len(rows[i]["ops"]))[:3]:
+        r = rows[i]
+        ctx.fail_or_known(None,
+                          "engine.io server socket: a packet handed to Send while the connection is upgraded is left "
+                          "in the poll queue of the discarded transport (or lost / duplicated / a Send or the upgrade "
+                          "stays blocked): %s" % describe_swap(r),
+                          {"kind": "failing-input", "engine": "queues", "queue": "swap", "nc": r["nc"],
+                           "ops": r["ops"], "observed": r["obs"],
+                           "replay_cmd": "vh queues -mode forced -queue swap -nc %d -only '%s'"
+                                         % (r["nc"], json.dumps(r["ops"]))})
+    if bad_agree and not bad_oracle:
+        r = rows[bad_agree[0]]
+        ctx.violation("engine.io server socket Send/upgradeTo no longer behave like the model Eio/PollQueueSwap.v "
+                      "(%d of %d forced schedules differ); the theorems %s are about the model; first differing "
+                      "schedule: %s" % (len(bad_agree), len(rows), ", ".join(theorems), describe_swap(r)),
+                      {"kind": "correspondence-broken", "suite": "forced/swap", "theorems": theorems, "case": r},
+                      no_input=True)
+
+
 def stress_suite(ctx, vh):
     """Real preemption, no hooks: producers and polling consumers run freely; nothing but the queue's own
     signalling may deliver (poll timeout 60 s).  Covers what the gate cannot place (a thread between the
@@ -273,11 +340,12 @@ def run(ctx):
                        "a non-blocking send on a capacity-1 channel succeeds iff the channel is empty",
                        "the Go scheduler eventually runs a runnable goroutine (progress theorems are stated as "
                        "bounded progress of the consumer running alone)"]
-    ctx.proofs(modules=["Eio/PollQueueCheck", "Sio/PacketQueueCheck"])
+    ctx.proofs(modules=["Eio/PollQueueCheck", "Sio/PacketQueueCheck", "Eio/PollQueueSwapCheck"])
     vh = ctx.go_build()
     if vh is None:
         return
     forced_suite(ctx, vh, "poll")
     forced_suite(ctx, vh, "packet")
+    swap_suite(ctx, vh)
     stress_suite(ctx, vh)
     live_suite(ctx, vh)
